@@ -25,6 +25,8 @@ THEOREMS = [
     'Nb.C08.volume_prefix',
     'Nb.C08.volume_prefix_plain',
     'Nb.C08.volume_tail_prefix',
+    'Nb.C08.segments_prefix',
+    'Nb.C08.volume_slice_prefix',
     'Nb.C08.pair_prefix_header',
     'Nb.C08.pair_prefix_image',
     'Nb.C08.mgh_prefix',
@@ -222,7 +224,16 @@ def files_of(spec):
 
 # ------------------------------------------------------------------ loading a (truncated) file
 
-def touch(spec, path, mode):
+def slicer_of(sl):
+    return tuple(slice(*i) if isinstance(i, list) else int(i) for i in sl)
+
+
+def fmt_slicer(sl):
+    return ';'.join('s' + ','.join('_' if v is None else str(v) for v in i) if isinstance(i, list) else 'i%d' % i
+                    for i in sl)
+
+
+def touch(spec, path, mode, slicer=None):
     """Load the file at `path` with the real nibabel and read all its data; canonical bytes."""
     nib = _nib()
     fmt = spec['fmt']
@@ -254,14 +265,17 @@ def touch(spec, path, mode):
     elif mode == 2:
         img = nib.load(path, mmap=False)
         return canon_arr(img.dataobj[..., -1])       # partial read: fileslice -> read_segments
+    elif mode in (3, 4):
+        img = nib.load(path, mmap=(mode == 4))       # partial read split into several segments
+        return canon_arr(img.dataobj[slicer_of(slicer)])
     else:
         img = nib.load(path, mmap=bool(mode))
     return canon_arr(np.asanyarray(img.dataobj))
 
 
-def _classify(spec, path, mode, expect):
+def _classify(spec, path, mode, expect, slicer=None):
     try:
-        got = touch(spec, path, mode)
+        got = touch(spec, path, mode, slicer)
     except Exception as e:  # noqa: BLE001 — any refusal is an acceptable outcome
         return 'X', type(e).__name__
     return ('E' if got == expect else 'D'), ''
@@ -499,8 +513,9 @@ def xml_layout(spec):
 
 # ------------------------------------------------------------------ cases
 
-def mk_case(spec, member, mode, k, stream='prefix'):
-    """`mode`: mmap flag for volumes, lazy_load flag for tractograms (ignored for GIFTI/CIFTI-2)."""
+def mk_case(spec, member, mode, k, stream='prefix', slicer=None):
+    """`mode`: volumes 1 mmap / 0 read / 2 tail read / 3,4 multi-segment partial read `dataobj[slicer]`
+    (mmap False / True); tractograms 1 lazy / 0 eager (ignored for GIFTI/CIFTI-2)."""
     ent = files_of(spec)
     fmt, comp = spec['fmt'], spec.get('comp', '')
     total = len(ent['raw'][member])
@@ -508,6 +523,8 @@ def mk_case(spec, member, mode, k, stream='prefix'):
     plain = ent['plain'][member]
     mode = int(mode)
     data = {'spec': spec, 'member': member, 'mode': mode, 'k': k, 'stream': stream}
+    if slicer is not None:
+        data['slicer'] = slicer
     extra = {}
     if comp:
         ck = (spec_key(spec), member, k)
@@ -519,6 +536,7 @@ def mk_case(spec, member, mode, k, stream='prefix'):
                     L0 = vol_layout(spec)
                     off, n = L0['off'], L0['n']
                     probes = [(off, n), (off + n - n // spec['shape'][-1], n // spec['shape'][-1])]
+                    probes += [(o, e - o) for o, e in slice_runs(spec, L0['off'])]
                 _CODEC[ck] = ((len(plain), False, True, True) if k == total
                               else codec_view(path, comp, plain, probes))
             finally:
@@ -539,6 +557,9 @@ def mk_case(spec, member, mode, k, stream='prefix'):
         tail = '_'
         if mode == 2:
             tail = str(L['n'] - L['n'] // spec['shape'][-1])
+        elif mode in (3, 4):
+            isz = np.dtype(spec['dtype']).itemsize
+            tail = f"s:{isz}:{','.join(map(str, spec['shape']))}:{fmt_slicer(slicer)}"
         line = (f"C08 vol {L['hs']} {L['sniff']} {L['exts']} {fixed} {L['ftr']} {mem} {L['e0']} {pl} {L['pad']} "
                 f"{L['n']} {L['fl']} {mm} {int(bool(comp))} {tail} {k} {m} {st}")
     elif fmt == 'trk':
@@ -556,14 +577,44 @@ def mk_case(spec, member, mode, k, stream='prefix'):
         raise ValueError(fmt)
     shape_key = tuple(spec.get('shape', spec.get('npts', [spec.get('nv', 0)])))
     key = None if k in (0, total) else (fmt, shape_key, spec.get('dtype'), tuple(spec.get('exts', [])), comp,
-                                        spec.get('nsc', 0), spec.get('npr', 0), member, mode, k)
+                                        spec.get('nsc', 0), spec.get('npr', 0), member, mode, k,
+                                        fmt_slicer(slicer) if slicer is not None else None)
     if stream == 'codec-ambiguous':
         line = None       # the decompressor's view depends on the access pattern here: oracle only
     return Case(line, data, key, stream, extra)
 
 
 def case_from_data(d):
-    return mk_case(d['spec'], d['member'], d['mode'], d['k'], d.get('stream', 'prefix'))
+    return mk_case(d['spec'], d['member'], d['mode'], d['k'], d.get('stream', 'prefix'), d.get('slicer'))
+
+
+SLICERS = [[[None, None, None], 1], [[None, None, None], [None, None, 2]],
+           [[None, None, None], [None, None, None], [None, None, 2]], [[None, None, None], [1, None, None], 2],
+           [[None, None, None], -1, [None, None, -1]], [[5, 70, None], [None, None, None], [None, None, 2]]]
+
+
+def slice_runs(spec, off, slicers=None):
+    """Byte ranges [start, end) of the file that hold the elements selected by the SLICERS (independent of
+    fileslice: element numbers through NumPy indexing of an F-ordered arange), merged into runs."""
+    shape = tuple(spec['shape'])
+    if len(shape) != 3 or shape[0] < 64:
+        return []
+    isz = np.dtype(spec['dtype']).itemsize
+    full = np.arange(int(np.prod(shape))).reshape(shape, order='F')
+    out = []
+    for sl in (slicers or SLICERS):
+        el = np.sort(np.asarray(full[slicer_of(sl)]).ravel())
+        if not len(el):
+            continue
+        start = prev = int(el[0])
+        for e in el[1:]:
+            e = int(e)
+            if e != prev + 1:
+                out.append((off + start * isz, off + (prev + 1) * isz))
+                start = e
+            prev = e
+        out.append((off + start * isz, off + (prev + 1) * isz))
+    return sorted(set(out))
 
 
 def impl(case):
@@ -574,10 +625,12 @@ def impl(case):
     try:
         in_child = mode == 1 and spec['fmt'] in VOLS and not spec.get('comp')
         expect = _SLAB[spec_key(spec)] if mode == 2 else ent['expect']
+        if mode in (3, 4):
+            expect = canon_arr(make_array(spec)[slicer_of(d['slicer'])])
         if in_child:
             cls, err = _CHILD.run(spec, path, mode, expect)
         else:
-            cls, err = _classify(spec, path, mode, expect)
+            cls, err = _classify(spec, path, mode, expect, d.get('slicer'))
     finally:
         shutil.rmtree(d2, ignore_errors=True)
     case.extra = dict(case.extra or {}, err=err, total=len(ent['raw'][member]))
@@ -591,6 +644,8 @@ def oracle(case, out):
     if total is None:
         total = len(files_of(spec)['raw'][d['member']])
     what = f"{spec['fmt']}{spec.get('comp', '')} member={d['member']} mode={d['mode']} cut at {k} of {total} bytes"
+    if d.get('slicer') is not None:
+        what += f" partial read dataobj[{fmt_slicer(d['slicer'])}] of shape {spec['shape']} {spec['dtype']}"
     if (case.extra or {}).get('codec_contract') is False:
         return f'decompressor delivered bytes that are not a prefix of the plaintext: {what}'
     cls = out.split(' ')[0]
@@ -625,6 +680,8 @@ def signature(case, what):
             return 'trk:cut-in-header' if k < 1000 else 'trk:cut-inside-record'
         except Exception:  # noqa: BLE001
             return 'trk:other'
+    if d.get('slicer') is not None:
+        return f"{fmt}{spec.get('comp', '')}:{d['member']}:partial-read-different"
     return f"{fmt}{spec.get('comp', '')}:{d['member']}:different"
 
 
@@ -774,6 +831,34 @@ def cases(rng, tier):
             if comp:
                 spec['comp'] = comp
             sweep(rng, spec, tier == 'thorough', 60 if tier == 'quick' else 300, out, 'large')
+    # partial reads that fileslice splits into several segments (gaps > SKIP_THRESH): the last segment too
+    # must be verified by read_segments.  Image member of single files and pairs, plain and .gz/.mgz.
+    for fmt, comp in [('nifti1', ''), ('analyze', ''), ('mgh', ''), ('nifti1', '.gz'), ('mgh', '.gz'), ('nifti2', ''),
+                      ('spm2', '.bz2')]:
+        if comp not in compressions(fmt) or (tier == 'quick' and (fmt, comp) in (('nifti2', ''), ('spm2', '.bz2'))):
+            continue
+        spec = {'fmt': fmt, 'shape': [rng.choice([80, 72, 96]), 4, 3], 'dtype': rng.choice(['int16', 'int16', 'float32']),
+                'seed': rng.randrange(1, 1000)}
+        if comp:
+            spec['comp'] = comp
+        total = len(files_of(spec)['raw']['image'])
+        L = vol_layout(spec)
+        for si, sl in enumerate(SLICERS):
+            if tier == 'quick' and si >= 4 and fmt != 'nifti1':
+                continue
+            if tier == 'thorough' and not comp:
+                ks = range(total + 1)
+            else:
+                ks = {0, 1, total, total - 1, total - 2, total - 9}
+                if not comp:
+                    for o, e in slice_runs(spec, L['off'], [sl]):
+                        ks.update(range(o - 2, o + 3))
+                        ks.update(range(e - 2, e + 3))
+                        ks.add((o + e) // 2)
+                ks.update(rng.randrange(0, total + 1) for _ in range(40 if tier == 'quick' else 400))
+                ks = sorted(k for k in ks if 0 <= k <= total)
+            for k in ks:
+                out.append(mk_case(spec, 'image', 3 + si % 2, k, 'multi-segment', sl))
     return out
 
 
@@ -817,6 +902,7 @@ def trkWidths : List Nat := {[dt.fields[f][0].itemsize for f in ('nb_scalars_per
 def tckMagic : List Nat := {list(tck.TckFile.MAGIC_NUMBER)}
 def tckFiberDelim : List Nat := {list(tck.TckFile.FIBER_DELIMITER.astype('<f4').tobytes())}
 def tckEofDelim : List Nat := {list(tck.TckFile.EOF_DELIMITER.astype('<f4').tobytes())}
+def skipThresh : Nat := {nib.fileslice.SKIP_THRESH}
 
 end Nb.C08.Gen
 '''
